@@ -140,7 +140,9 @@ def k_direct(run, case):
     rel_tol = [0.01, 0.1, 0.5][rng.integers(3)]
     m1 = "se3" if rng.random() < .5 else "xyzq"
     m2 = "se3" if rng.random() < .5 else "xyzq"
-    t_ref, t_est = gen.make_evo(ref, m1, False), gen.make_evo(est, m2, False)
+    t_ref = gen.make_evo(ref, m1, False, flavour=gen.rand_flavour(rng))
+    t_est = gen.make_evo(est, m2, False, flavour=gen.rand_flavour(rng))
+    gen.age(rng, t_ref), gen.age(rng, t_est)
     s1, s2 = contracts.field_snapshot(t_ref), contracts.field_snapshot(t_est)
     U = {"frames": Unit.frames, "meters": Unit.meters, "radians": Unit.radians, "degrees": Unit.degrees}[unit]
     metric = metrics.RPE(metrics.PoseRelation[relation], delta, U, rel_tol, all_pairs, from_ref)
